@@ -4,16 +4,16 @@
 // facts the lock-discipline theorems of Goyang/Props/C19.lean are checked against on every run,
 // and writes them as a Lean table (Goyang/Gen/Access.lean):
 //
-//   per function   shared-location reads and writes, each with the mutexes that are held at
-//                  that point inside the function (must-hold analysis over the CFG, Lock/RLock
-//                  ... Unlock/RUnlock, `defer mu.Unlock()` = held until the function returns),
-//                  and the call edges (static calls, closures created, interface calls resolved
-//                  by class hierarchy inside the two packages, calls of function values resolved
-//                  to every address-taken function of identical signature, methods that become
-//                  callable from foreign code by a conversion to an interface);
-//   whole program  the reader API set and what is reachable from it, the functions that run
-//                  only during package initialisation, the package-level variables, the declared
-//                  guards (location -> mutex), the number of `go` statements.
+//	per function   shared-location reads and writes, each with the mutexes that are held at
+//	               that point inside the function (must-hold analysis over the CFG, Lock/RLock
+//	               ... Unlock/RUnlock, `defer mu.Unlock()` = held until the function returns),
+//	               and the call edges (static calls, closures created, interface calls resolved
+//	               by class hierarchy inside the two packages, calls of function values resolved
+//	               to every address-taken function of identical signature, methods that become
+//	               callable from foreign code by a conversion to an interface);
+//	whole program  the reader API set and what is reachable from it, the functions that run
+//	               only during package initialisation, the package-level variables, the declared
+//	               guards (location -> mutex), the number of `go` statements.
 //
 // Locations are abstract: `pkg.Type.field`, `pkg.var`, a `[]` suffix per element level of a
 // map/slice stored there, and `*T` / `[]T` / `map[K]V` for memory that can only be named by its
